@@ -12,10 +12,23 @@ import (
 
 // ---------- encoder ----------
 
-type Enc struct{ B []byte }
+// MinW > 0 makes every head written through the typed methods use at least that argument width (1, 2, 4 or 8
+// bytes): well-formed but not preferred serialisation, as other encoders may produce it.
+type Enc struct {
+	B    []byte
+	MinW int
+}
 
 func (e *Enc) head(major byte, v uint64) {
 	m := major << 5
+	if e.MinW > 0 {
+		w := e.MinW
+		for (w == 1 && v > 0xff) || (w == 2 && v > 0xffff) || (w == 4 && v > 0xffffffff) {
+			w *= 2
+		}
+		e.HeadW(major, v, w)
+		return
+	}
 	switch {
 	case v < 24:
 		e.B = append(e.B, m|byte(v))
